@@ -204,6 +204,72 @@ def run(P, tier="quick"):
                                        "the message says the argument must be %s, the test `%s` refuses %s %s %s (the stated bound is "
                                        "refused by `%s`): the boundary value is treated differently from what the report tells the user" %
                                        (says, c.text(), subj.text(), op, k, should), c.line))
+    # PRECISION-RANGE: "precision in decimal places (1..n) or *_MAX_PRECISION": every function that stores a caller- or
+    # file-supplied value into a *_fprecision / *_dprecision member refuses both values below 1 and values above
+    # *_MAX_PRECISION before the store (setters and loaders are siblings: what one accepts the other must accept; the
+    # savers size their buffers from the precision)
+    nprec = 0
+    for f in P.all_functions():
+        if f.body is None:
+            continue
+        for n in f.walk():
+            if n.k != "BinaryOperator" or n.op != "=":
+                continue
+            l, r = n.kids[0].strip(), n.kids[1].strip()
+            if l.k != "MemberExpr" or not re.search(r"_[fd]precision$", l.member or "") or r.k != "DeclRefExpr" or \
+                    r.refkind not in ("param", "local"):
+                continue
+            nprec += 1
+            low = high = False
+            for t in f.walk():
+                if t.k == "BinaryOperator" and t.op in ("<", "<=", ">", ">="):
+                    nz = normalise(t)
+                    if nz is None or nz[0] == "pair":
+                        continue
+                    subj, op, k_ = nz
+                    if subj.k == "DeclRefExpr" and subj.refdecl == r.refdecl and t.line < n.line:
+                        if refuses_below(op, k_, True, 1):
+                            low = True
+                        other = [x.strip() for x in t.kids if x.strip() is not subj]
+                        if op in (">", ">=") and any("MAX_PRECISION" in " ".join(x.macros) for o in other for x in o.walk()):
+                            high = True
+            props = ("C07", "C11") if "vnacal" in f.name or "vc_" in l.member else ("C06", "C11")
+            if f.file == "vnadata_load_npd.c":
+                props = ("C06", "C09")
+            key = "R37|%s|%s|precision-range:%s" % (f.file, f.name, l.member)
+            if low and high:
+                R.ok(key, props)
+            else:
+                R.violated(Finding("R37", props, f.file, f.name, "precision-range:" + l.member,
+                                   "%s is stored into %s after refusing %s: the documented range is 1..*_MAX_PRECISION, and a value the "
+                                   "setter accepts but the loader refuses (or the reverse) cannot be saved and re-loaded; the savers "
+                                   "size stack buffers from it" %
+                                   (r.refname, l.member, "only values below 1" if low else ("only values above the maximum" if high else "nothing")),
+                                   n.line))
+    R.counts["precision_stores"] = nprec
+    if nprec < 4:
+        raise AnalysisBroken("R37: only %d stores of a caller-supplied precision found (6 confirmed by hand)" % nprec)
+    # STATED-CLASS: a report that says "unsupported version" is a VNAERR_VERSION report
+    nver = 0
+    for f in P.all_functions():
+        if f.body is None:
+            continue
+        for c in f.calls():
+            if c.callee not in REPORTERS or len(c.args()) < 3:
+                continue
+            text = " ".join(str(m.val) for m in c.walk() if m.k == "StringLiteral").lower()
+            if "unsupported version" in text or "unsupported file version" in text:
+                nver += 1
+                cat = c.args()[1].strip()
+                name = cat.refname or cat.text()
+                key = "R37|%s|%s|version-class#%d" % (f.file, f.name, nver)
+                if name == "VNAERR_VERSION":
+                    R.ok(key, ("C09", "C11"))
+                else:
+                    R.violated(Finding("R37", ("C09", "C11"), f.file, f.name, "version-class",
+                                       "the report \"%s\" is made with category %s: an unsupported file version is documented as "
+                                       "VNAERR_VERSION (errno ENOPROTOOPT), not a syntax error" % (text[:50], name), c.line))
+    R.counts["version_reports"] = nver
     R.counts["stated_bound_tests"] = nstated
     R.counts["frequency_zero_tests"] = nfreq
     if nfreq < 4:
